@@ -38,6 +38,23 @@ def run_actor(ctx, prop):
                 ["--mode", "dfs", "--clients", 3, "--per", 2, "--depth", 8, "--emit-every", 5000],
                 ["--mode", "dfs", "--clients", 3, "--per", 1, "--depth", 6, "--cancel", 1, "--emit-every", 5000],
                 ["--mode", "sample", "--cases", 6000, "--maxclients", 7]]
+    if prop == "C11":
+        # overflow-checked (debug) build of the same harness: arithmetic that only wraps in release unwinds the actor task here
+        dbg = C.harness_build(ctx, "srv", ["actor"], profile="debug")
+        if dbg:
+            out = C.run_harness(ctx, dbg["actor"], ["--mode", "sample", "--cases", 500 if ctx.tier == "quick" else 6000, "--seed", ctx.seed + 900, "--hostile", 1], timeout=3000)
+            nd = 0
+            for l in out.splitlines():
+                if not l.startswith("{") or '"summary"' in l:
+                    continue
+                d = json.loads(l)
+                nd += 1
+                answers = [a for p in d["answers"] for a in p if a]
+                if (not d["ok"] and "panicked" in d["what"]) or any(a.get("err") == "dead" for a in answers):
+                    ctx.violations.append({"what": "C11 (overflow-checked build): the actor loop unwound while serving a request; every later request on every transport is refused",
+                                           "input": {"store": d["store"], "queue_capacity": d["cap"], "client_programs[key,max_burst,count,period,quantity,now_ns]": d["progs"],
+                                                     "schedule": d["schedule"], "answers": d["answers"]}})
+            ctx.coverage["debug_profile_schedules"] = nd
     schedules = 0
     emitted = []
     dist = {"exhaustive_runs": [], "sampled": 0, "with_cancellation": 0, "hostile_requests": 0, "cap1": 0, "stores": {}}
